@@ -148,6 +148,7 @@ class Ledger:
             pl.append({"start": cmd.vtime, "left": max(trec, 1), "size": max(trec, 1), "blocked": self._chan_busy(cmd.chan, cmd), "inc": self.w.incarnation,
                        "due": due, "seq": cmd.seq, "q": self.w.qcount,
                        "after_alrm": self.alrm_pending.pop(pk, False) if hasattr(self, "alrm_pending") else False})
+            getattr(self, "alrm_due", {}).pop(pk, None)
         pl[-1]["left"] -= 1
         pl[-1]["last_cmd"] = cmd.vtime
 
@@ -564,6 +565,42 @@ class Ledger:
             elif tmo > due - now + 1:
                 res.v("C16", "daemon sleeps %d s past its earliest due event: message %d channel %d is due in %d s" % (tmo, n, c, due - now))
             self.res.classes.add("q_with_future_due")
+        # "the schedule survives a clean restart": a (message, channel) whose last pass belongs to an EARLIER incarnation, every stop since then
+        # having been a clean TERM exit, is due at the retry time fixed by that pass - or at the instant of an ALRM that found it waiting -
+        # and is served / slept for exactly as if the daemon had never stopped (added after seeded change C15-I)
+        if self.fault_or_crash or self.disorder:
+            return
+        for (n, c), pl in self.passes.items():
+            if n not in snap or not pl:
+                continue
+            p = pl[-1]
+            if p["inc"] == self.w.incarnation or p["inc"] < getattr(self, "clean_from", 0):
+                continue
+            if p["left"] > 0 or p.get("blocked") or p.get("open_at_term"):
+                continue
+            if any(cm.n == n and cm.chan == c for cm in self.w.outstanding):
+                continue
+            if not self.w.spawner_alive[c] or 0 in (self.limit(0), self.limit(1)):
+                continue
+            recs = self.last_records.get(n, {}).get(c)
+            if not recs or not any(mk == b"T" for mk, a in recs):
+                continue
+            jobs = {(cm.n, cm.chan) for cm in self.w.outstanding} | {k for k, v in self.passes.items() if v and v[-1]["left"] > 0 and v[-1]["inc"] == self.w.incarnation}
+            if len(jobs) >= sum(self.limit(x) for x in (0, 1)) or sum(1 for cm in self.w.outstanding if cm.chan == c) >= self.limit(c):
+                continue
+            birth = self.w.mess_seen.get(n, {}).get("birth")
+            if birth is None:
+                continue
+            due = retry_time(birth, p["start"], c)
+            ad = getattr(self, "alrm_due", {}).get((n, c))
+            if ad is not None:
+                due = min(due, ad)
+            self.res.classes.add("schedule_across_clean_restart_checked")
+            if due <= now:
+                res.v("C15", "message %d channel %d was due at %d (%s) before the clean restart and still is (now %d, free slot), but the restarted daemon blocks for %d s without trying it"
+                      % (n, c, due, "made due by ALRM" if ad is not None and ad == due else "retry time of its last pass", now, tmo))
+            elif tmo > due - now + 1:
+                res.v("C16", "restarted daemon sleeps %d s past its earliest due event: message %d channel %d is due in %d s (schedule persisted by the clean stop)" % (tmo, n, c, due - now))
 
 
 def retry_time(birth, start, chan):
@@ -600,6 +637,8 @@ def run_scenario(tree, wpath, sc, maxq=None, world=None):
         res.classes.add("queue_filter_refuses_notice")
     led = Ledger(sc, res, w)
     led.alrm_pending = {}
+    led.alrm_due = {}
+    led.clean_from = 0
     w.partial = None
     mode = sc["mode"]
     crash = fault = None
@@ -665,6 +704,7 @@ def run_scenario(tree, wpath, sc, maxq=None, world=None):
                     crashed_done = reached_mode = True
                     res.classes.add("crash_reached")
                     led_after_crash(led, w, mode)
+                    led.clean_from = w.incarnation + 1
                     led.term_sent = False
                     finishing = False
                     w.start()
@@ -681,13 +721,17 @@ def run_scenario(tree, wpath, sc, maxq=None, world=None):
                         res.v("C04", "daemon exited after TERM while %d attempts were outstanding" % len(w.outstanding))
                     led.term_sent = False
                     res.classes.add("term_restart")
+                    if st != 0:
+                        led.clean_from = w.incarnation + 1
                 elif used["spawndie"] and not all(w.spawner_alive):
                     res.classes.add("spawner_death_restart")
+                    led.clean_from = w.incarnation + 1
                 elif st == -9 and b"BUSYLOOP" in open(w.h.trace, "rb").read()[-4000:]:
                     res.v("C16", "busy loop: the daemon issued more than 100000 zero-timeout select() calls in a row")
                     break
                 elif mode["kind"] == "fault":
                     res.classes.add("exit_under_fault_%s" % st)
+                    led.clean_from = w.incarnation + 1
                 else:
                     res.v("C03", "daemon exited unexpectedly with status %r; log tail %r" % (st, w.log[-300:]))
                     break
@@ -738,7 +782,7 @@ def run_scenario(tree, wpath, sc, maxq=None, world=None):
                     enabled.append(("hup",))
                 if "alrm" in acts and used["alrm"] < 2:
                     enabled.append(("alrm",))
-                if "term" in acts and used["term"] < 1:
+                if "term" in acts and used["term"] < sc.get("term_max", 1):
                     enabled.append(("term",))
                 if "spawndie" in acts and used["spawndie"] < 1 and w.outstanding:
                     enabled.append(("spawndie",))
@@ -816,6 +860,10 @@ def run_scenario(tree, wpath, sc, maxq=None, world=None):
                 for (n, c), pl in led.passes.items():
                     led.alrm_pending[(n, c)] = True
                 led.alrm_at = w.vnow()
+                for (n, c), pl in led.passes.items():
+                    # waiting in the priority queue (not in a job) when the ALRM arrives: due from this instant on, also across clean restarts
+                    if pl and not any(cm.n == n and cm.chan == c for cm in w.outstanding) and not (pl[-1]["inc"] == w.incarnation and pl[-1]["left"] > 0):
+                        led.alrm_due[(n, c)] = w.vnow()
                 led.note_alrm()
                 w.signal(signal.SIGALRM)
             elif act[0] == "term":
